@@ -125,12 +125,18 @@ impl Record {
     /// ```
     pub fn end(&self) -> io::Result<Position> {
         let Some(start) = self.variant_start().transpose()? else {
-            todo!();
+            return Err(io::Error::new(
+                io::ErrorKind::InvalidData,
+                "missing variant start",
+            ));
         };
 
-        let len = self.rlen()?;
+        let len = self
+            .rlen()?
+            .checked_sub(1)
+            .ok_or_else(|| io::Error::new(io::ErrorKind::InvalidData, "invalid reference length"))?;
 
-        start.checked_add(len - 1).ok_or_else(|| {
+        start.checked_add(len).ok_or_else(|| {
             io::Error::new(
                 io::ErrorKind::InvalidData,
                 "calculation of the end position overflowed",
